@@ -1,6 +1,8 @@
 (** C36 — correspondence check: a scripted scenario on the real queue (one API call
     after the other, the pump goroutines left to run to quiescence after each call),
-    compared call by call with the LTS of Model.v. *)
+    compared call by call with the LTS of Model.v.  A step whose observation is empty
+    (no client listed) is one of several calls that overlapped (the Queue.Close race): the
+    pumps are run and the lengths compared at the next step that carries an observation. *)
 From Coq Require Import List NArith Bool.
 From C33 Require Import Lib.Harness C36.Model C36.Spec.
 Import ListNotations.
@@ -11,7 +13,7 @@ Open Scope N_scope.
 Record obs := mkObs { ob_comps : list comp; ob_tl : list (N * N); ob_cl : list N }.
 
 Inductive case :=
-| Scripted (cp : caps) (steps : list (op * obs)) (still : list N)
+| Scripted (cp : caps) (npre : N) (steps : list (op * obs)) (still : list N)   (* topics 0 .. npre-1 are preset *)
 | Concurrent (log : list cevent).     (* (b): a test; only the monitor is evaluated *)
 
 (** *** the pump goroutines run to quiescence (high before low).
@@ -19,20 +21,24 @@ Inductive case :=
     [done]; both continuations are followed ([pump_client_nd]) and the observations decide. *)
 Inductive pump_move := PM (s : state) | PMChoice (take exit : option state) | PMRest.
 
+Definition of_opt (o : option state) : pump_move := match o with Some s' => PM s' | None => PMRest end.
+
+(* what a pump at rest on (topic, client.done) does next; [take hi] / [exit] are its events *)
+Definition pump_next (s : state) (tp : topic) (closing : bool) (take : bool -> option state) (exit : option state) : pump_move :=
+  if t_closed tp then
+    if fis_empty (t_high tp) then of_opt exit else PMChoice (take true) exit
+  else if negb (fis_empty (t_high tp)) then of_opt (take true)
+  else if closing then      (* inner select: low against client.done *)
+    if fis_empty (t_low tp) then of_opt exit else PMChoice (take false) exit
+  else of_opt (take false).
+
 Definition pump_one (s : state) (c : N) : pump_move :=
   let cl := gc s c in
-  let of_opt o := match o with Some s' => PM s' | None => PMRest end in
   match c_pump cl with
   | PRun =>
       match c_hold cl with
       | Some _ => of_opt (step s (EPumpPut c))
-      | None =>
-          let tp := gt s (c_topic cl) in
-          if t_closed tp then
-            if fis_empty (t_high tp) then of_opt (step s (EPumpExit c))
-            else PMChoice (step s (EPumpTake c true)) (step s (EPumpExit c))
-          else if negb (fis_empty (t_high tp)) then of_opt (step s (EPumpTake c true))
-          else of_opt (step s (EPumpTake c false))
+      | None => pump_next s (gt s (c_topic cl)) (c_closing cl) (fun hi => step s (EPumpTake c hi)) (step s (EPumpExit c))
       end
   | PExit =>
       if c_closed cl then
@@ -45,24 +51,50 @@ Definition pump_one (s : state) (c : N) : pump_move :=
       if c_closing cl && negb (c_closed cl) then of_opt (step s (ECloseEnd c)) else PMRest
   end.
 
-Fixpoint pump_client_nd (fuel : nat) (s : state) (c : N) : list state :=
+(* the pump of a later subscription *)
+Definition xpump_one (s : state) (k : N) : pump_move :=
+  let xp := gx s k in
+  match x_st xp with
+  | PRun =>
+      match x_hold xp with
+      | Some _ => of_opt (step s (EXPut k))
+      | None => pump_next s (gt s (x_topic xp)) (c_closing (gc s (x_client xp))) (fun hi => step s (EXTake k hi)) (step s (EXExit k))
+      end
+  | _ => PMRest
+  end.
+
+Fixpoint pump_unit_nd (one : state -> N -> pump_move) (fuel : nat) (s : state) (c : N) : list state :=
   match fuel with
   | O => [s]
   | S f =>
-      match pump_one s c with
-      | PM s' => pump_client_nd f s' c
+      match one s c with
+      | PM s' => pump_unit_nd one f s' c
       | PMChoice a b =>
-          match a with Some s' => pump_client_nd f s' c | None => [] end
-          ++ match b with Some s' => pump_client_nd f s' c | None => [] end
+          match a with Some s' => pump_unit_nd one f s' c | None => [] end
+          ++ match b with Some s' => pump_unit_nd one f s' c | None => [] end
       | PMRest => [s]
       end
   end.
+Definition pump_client_nd := pump_unit_nd pump_one.
 
-Fixpoint pump_all_nd (fuel : nat) (ss : list state) (c : N) (n : nat) : list state :=
+Fixpoint pump_units_nd (one : state -> N -> pump_move) (fuel : nat) (ss : list state) (c : N) (n : nat) : list state :=
   match n with
   | O => ss
-  | S n' => pump_all_nd fuel (flat_map (fun s => pump_client_nd fuel s c) ss) (N.succ c) n'
+  | S n' => pump_units_nd one fuel (flat_map (fun s => pump_unit_nd one fuel s c) ss) (N.succ c) n'
   end.
+
+(* one round over all pumps.  Pumps of one client compete for its recv channel: both orders
+   (later subscriptions first / first subscription first) are followed; the clients come last
+   in either case so that a Close that was waiting for its pumps can go on. *)
+Definition pump_all_nd (fuel : nat) (ss : list state) (c : N) (n : nat) : list state :=
+  flat_map (fun s =>
+    match s_xp s with
+    | [] => pump_units_nd pump_one fuel [s] c n
+    | _ =>
+        let nx := length (s_xp s) in
+        pump_units_nd pump_one fuel (pump_units_nd xpump_one fuel [s] 0 nx) c n
+        ++ pump_units_nd pump_one fuel (pump_units_nd xpump_one fuel (pump_units_nd pump_one fuel [s] c n) 0 nx) c n
+    end) ss.
 
 (* deterministic version (the choice does not arise while the topic is open) *)
 Definition pump_all (fuel : nat) (s : state) (n : nat) : state :=
@@ -150,7 +182,7 @@ Definition bulk_fill (n : N) (s : state) (c t o i : N) : option state :=
         let low' := mkF (seq_items (N.to_nat n) o (f_items (t_low tp))) (f_len (t_low tp) + n) in
         let s1 := st s t (mkT (t_high tp) low' (t_closed tp)) in
         Some (mkS (s_caps s1) (s_topics s1) (s_clients s1) (seq_objs (N.to_nat n) o i t (s_objs s1))
-                  (s_pend s1) (s_qclosed s1) (i + n - 1) (s_deliv s1))
+                  (s_pend s1) (s_qclosed s1) (i + n - 1) (s_deliv s1) (s_xp s1) (s_last s1) (s_qclosing s1))
       else None
   end.
 
@@ -165,7 +197,11 @@ Definition apply_op (fuel : nat) (nc : nat) (s : state) (o : op) : option state 
   match o with
   | ONew ob t i => step s (ENew ob t i)
   | OFree ob => step s (EFree ob)
-  | OSub c t => step s (ESub c t)
+  | OSub c t =>       (* the first Sub of a client, or a later one (its pump gets the next number) *)
+      match step s (ESub c t) with
+      | Some s' => Some s'
+      | None => step s (ESub2 (N.of_nat (length (s_xp s))) c t)
+      end
   | OSend p c ob hi m (Some STimeout) =>
       match m with
       | MTimed => match step s (EBlock p c ob hi m) with
@@ -195,6 +231,10 @@ Definition apply_op (fuel : nat) (nc : nat) (s : state) (o : op) : option state 
       end
   | OCloseQ => step s ECloseQueue
   | OPanic _ => None
+  | ONewRaw ob t => step s (ENewRaw ob t)
+  | OClosePanic c => step s (EClosePanic c)
+  | OCloseQB => step s ECloseQBegin
+  | OCloseQE => step s ECloseQEnd
   end.
 
 (* for OClose: the call returns iff ECloseEnd is enabled after the pump has settled *)
@@ -240,16 +280,31 @@ Fixpoint replay (fuel : nat) (cands : list state) (steps : list (op * obs)) : li
 Definition still_ok (s : state) (still : list N) : bool :=
   list_eqb N.eqb (rev (map fst (s_pend s))) still.
 
+(* the preset topics exist from the start *)
+Fixpoint init_pre (n : nat) (s : state) : state :=
+  match n with O => s | S n' => touch (init_pre n' s) (N.of_nat n') end.
+
 Definition check_case (c : case) : verdict :=
   match c with
-  | Scripted cp steps still =>
+  | Scripted cp npre steps still =>
       let ops := map fst steps in
-      let m := existsb (fun s => still_ok s still) (replay (caps_fuel cp) [init cp] steps) in
+      let m := existsb (fun s => still_ok s still) (replay (caps_fuel cp) [init_pre (N.to_nat npre) (init cp)] steps) in
       let d := disciplined [] ops in
       let steps' := map (fun x => (fst x, ob_comps (snd x))) steps in
-      let s12 := no_panic ops && (negb d || (own_reply [] ops && at_most_once ops)) in
-      let s3 := after_close [] false steps' in
+      let known := map N.of_nat (seq 0 (N.to_nat npre)) in
+      let s0 := no_panic ops in
+      let s12 := negb d || (own_reply [] ops && at_most_once ops) in
+      let s3 := after_close false false (acs0 known) steps' in
       let s4 := no_block_forever ops still in
-      (m, s12 && s3 && s4, 0)     (* no open known finding: every spec failure is a violation *)
+      let s5 := negb d || no_lost false nls0 steps' in
+      let kf :=
+        if s0 && s12 && s3 && s4 && s5 then 0
+        else if s0 && s12 && s4 && s5 && after_close true false (acs0 known) steps' then 3
+        else if s12 && s3 && s4 && s5 && only_overlap_panics [] steps' then 4
+        else if s0 && s12 && s3 && s4 && no_lost true nls0 steps' then 5
+        else if s0 && s12 && s5 && after_close false true (acs0 known) steps'
+                && (s4 || only_late_parked (known_at_close (acs0 known) steps') (parked_topics (acs0 known) steps') still) then 6
+        else 0 in
+      (m, s0 && s12 && s3 && s4 && s5, kf)
   | Concurrent log => mk_verdict true (conc_ok log)
   end.
